@@ -79,6 +79,10 @@ impl WalIndex {
         fs::write(&tmp_path, &bytes)?;
         fs::File::open(&tmp_path)?.sync_all()?;
         fs::rename(&tmp_path, &self.path)?;
+        // Make the rename itself durable: sync the directory that holds the index
+        if let Some(dir) = std::path::Path::new(&self.path).parent().filter(|d| !d.as_os_str().is_empty()) {
+            fs::File::open(dir)?.sync_all()?;
+        }
         Ok(())
     }
 }
